@@ -17,10 +17,26 @@ CONSTANTS Starts,        \* initial values of the accumulator
           MaxDepth,      \* -1: unbounded (lattice closure), else number of operations
           TBound,        \* -1: no bound, else |t_i| <= TBound * d  (keeps the lattice finite)
           MaxQN, MaxDen, \* size bounds that keep 32-bit arithmetic exact
-          Export         \* "edges" | "hist" | "none"
+          Export,        \* "edges" | "hist" | "none"
+          Rep0,          \* initial representation ("all": representation-agnostic behaviour, replayed in every class)
+          Convs          \* enabled conversions, a set of <<from, to>> pairs
 
-VARIABLES acc, dep, last, hist
-vars == <<acc, dep, last, hist>>
+VARIABLES acc, dep, last, hist, rep
+vars == <<acc, dep, last, hist, rep>>
+
+\* representations (classes) of a motion; those in RotOnlyReps carry no translation
+Reps3 == {"SO3", "SE3", "UnitQuaternion", "Twist3", "UnitDualQuaternion"}
+Reps2 == {"SO2", "SE2", "Twist2"}
+RotOnlyReps == {"SO3", "UnitQuaternion", "SO2"}
+\* every conversion the library offers between representations of the same motion (C04)
+AllConvs == { <<"SO3", "UnitQuaternion">>, <<"UnitQuaternion", "SO3">>, <<"SO3", "SE3">>, <<"SE3", "SO3">>,
+              <<"UnitQuaternion", "SE3">>, <<"SE3", "UnitQuaternion">>, <<"SE3", "Twist3">>, <<"Twist3", "SE3">>,
+              <<"SE3", "UnitDualQuaternion">>, <<"UnitDualQuaternion", "SE3">>,
+              <<"SO2", "SE2">>, <<"SE2", "SO2">>, <<"SE2", "Twist2">>, <<"Twist2", "SE2">>, <<"SE2", "SE3">> }
+\* operations each representation offers
+HasDiv(r) == r \in {"all", "SO3", "SE3", "UnitQuaternion", "SO2", "SE2"}
+HasPow(r) == r \in {"all", "SO3", "SE3", "UnitQuaternion", "SO2", "SE2"}
+HasInv(r) == r # "UnitDualQuaternion"
 
 InBounds(m) ==
   /\ QN(m.q) <= MaxQN /\ m.d <= MaxDen
@@ -31,21 +47,38 @@ Init ==
   /\ acc \in Starts
   /\ dep = 0
   /\ last = [op |-> "init"]
-  /\ hist = IF Export = "hist" THEN << [call |-> [op |-> "init"], post |-> Hom(acc)] >> ELSE <<>>
+  /\ rep = Rep0
+  /\ (Rep0 \in RotOnlyReps => acc = Rot(acc))
+  /\ (Rep0 \in Reps2 => Planar(acc))
+  /\ hist = IF Export = "hist" THEN << [call |-> [op |-> "init"], post |-> Hom(acc), rep |-> Rep0] >> ELSE <<>>
 
-Step(call, new) ==
+\* the value an operand g takes in representation r (rotation-only classes drop the translation)
+InRep(r, g) == IF r \in RotOnlyReps THEN Rot(g) ELSE g
+
+StepR(call, new, r) ==
   /\ (MaxDepth >= 0 => dep < MaxDepth)
   /\ InBounds(new)
+  /\ rep' = r
   /\ acc' = new
   /\ dep' = IF MaxDepth >= 0 THEN dep + 1 ELSE 0
   /\ last' = call
-  /\ hist' = IF Export = "hist" THEN Append(hist, [call |-> call, post |-> Hom(new)]) ELSE hist
+  /\ hist' = IF Export = "hist" THEN Append(hist, [call |-> call, post |-> Hom(new), rep |-> r]) ELSE hist
 
-MulR(g) == Step([op |-> "mulr", g |-> Hom(g)], Compose(acc, g))     \* acc * g
-MulL(g) == Step([op |-> "mull", g |-> Hom(g)], Compose(g, acc))     \* g * acc
-DivR(g) == Step([op |-> "divr", g |-> Hom(g)], Div(acc, g))         \* acc / g
-InvA    == Step([op |-> "inv"], Inv(acc))
-PowA(n) == Step([op |-> "pow", n |-> n], Pow(acc, n))
+Step(call, new) == StepR(call, new, rep)
+
+OperandOK(g) == rep \in Reps2 => Planar(g)
+MulR(g) == OperandOK(g) /\ Step([op |-> "mulr", g |-> Hom(InRep(rep, g))], Compose(acc, InRep(rep, g)))   \* acc * g
+MulL(g) == OperandOK(g) /\ Step([op |-> "mull", g |-> Hom(InRep(rep, g))], Compose(InRep(rep, g), acc))   \* g * acc
+DivR(g) == OperandOK(g) /\ HasDiv(rep) /\ Step([op |-> "divr", g |-> Hom(InRep(rep, g))], Div(acc, InRep(rep, g)))
+InvA    == HasInv(rep) /\ Step([op |-> "inv"], Inv(acc))
+PowA(n) == HasPow(rep) /\ Step([op |-> "pow", n |-> n], Pow(acc, n))
+
+\* conversion to another representation of the same motion: the abstract value is unchanged
+\* (C04), except that a rotation-only class forgets the translation
+Conv(c) ==
+  /\ c \in Convs /\ c[1] = rep
+  /\ (c[2] \in Reps2 => Planar(acc))
+  /\ StepR([op |-> "conv", from |-> c[1], to |-> c[2]], InRep(c[2], acc), c[2])
 
 \* powers are taken only where 32-bit integer arithmetic stays exact
 PowOK(n) == acc.d <= 4 /\ (QN(acc.q) <= 4 \/ (Abs(n) <= 3 /\ QN(acc.q) <= 7))
@@ -56,6 +89,7 @@ Next ==
   \/ \E g \in Leaves : DivR(g)
   \/ InvA
   \/ \E n \in Exps : PowOK(n) /\ PowA(n)
+  \/ \E c \in AllConvs : Conv(c)
 
 Spec == Init /\ [][Next]_vars
 
@@ -73,12 +107,16 @@ C02_InvActs == LawHere => \A g \in Leaves : Act(Inv(acc), Act(acc, [v |-> g.t, d
 C06_ActHom  == LawHere => \A g \in Leaves : \A h \in Leaves :
                  Act(Compose(acc, g), [v |-> h.t, d |-> h.d]) = Act(acc, Act(g, [v |-> h.t, d |-> h.d]))
 CanonState  == acc = Canon(acc)
+\* C04 on the model: conversion never changes the motion beyond forgetting what the class cannot hold
+C04_ConvKeeps == [][ last'.op = "conv" => acc' = InRep(rep', acc) ]_vars
+C04_RepShape  == /\ (rep \in RotOnlyReps => acc = Rot(acc))
+                 /\ (rep \in Reps2 => Planar(acc))
 
-View == acc
+View == <<acc, rep>>
 
 EdgeOut ==
   IF Export = "edges"
-  THEN PrintT(ToJson([pre |-> Hom(acc), call |-> last', post |-> Hom(acc')]))
+  THEN PrintT(ToJson([pre |-> Hom(acc), call |-> last', post |-> Hom(acc'), rep |-> rep, rep2 |-> rep']))
   ELSE TRUE
 
 HistOut ==
